@@ -112,6 +112,7 @@ func main() {
 		DumpMax   int      `json:"dump_max"`
 		MaxSteps  int      `json:"max_steps"`
 		MaxSeconds int     `json:"max_seconds"`
+		Witnesses  int     `json:"witnesses"`
 	}
 	var specs []specT
 	if *specFile != "" {
@@ -144,7 +145,7 @@ func main() {
 	for _, sp := range specs {
 		h := sp.Harness
 		opt := sym.Options{Harness: h, Only: sp.Only, Unwind: sp.Unwind, MaxPaths: sp.MaxPaths, TimeoutMs: sp.TimeoutMs, MaxSteps: sp.MaxSteps,
-			Workers: *workers, Seed: *seed, DumpDir: *dump, DumpMax: sp.DumpMax, Verbose: *verbose, StopAtFirst: *stopFirst, Tier: sp.Tier, Progress: *progress, MaxSeconds: sp.MaxSeconds}
+			Workers: *workers, Seed: *seed, DumpDir: *dump, DumpMax: sp.DumpMax, Verbose: *verbose, StopAtFirst: *stopFirst, Tier: sp.Tier, Progress: *progress, MaxSeconds: sp.MaxSeconds, Witnesses: sp.Witnesses}
 		if opt.MaxSeconds == 0 {
 			opt.MaxSeconds = *maxSeconds
 		}
